@@ -27,7 +27,38 @@ def run(ck):
     for p in host + rnd:
         p["id"] = len(progs) + 1
         progs.append(p)
-    cases = [{"id": p["id"], "src": p["src"], "inputs": p.get("inputs", []), "mods": p.get("mods", []), "timeout_ms": 3000} for p in progs]
+    # terminating hostile cells also go through the other context-aware entry points (Script.RunContext, a context that can never
+    # be cancelled), and "repairable" failures are followed by a Set of a good input and a run that must then succeed
+    npath = 0
+    for p in list(progs):
+        if p.get("raw") and "runaway" not in p.get("cell", "") and "for {" not in p["src"] and "cyclic" not in p.get("cell", ""):
+            for path in ("compiled-bg", "script-bg", "script-timeout"):
+                if npath % 3 == ["compiled-bg", "script-bg", "script-timeout"].index(path) or not quick:
+                    q = dict(p)
+                    q["id"] = len(progs) + 1
+                    q["path"] = path
+                    q["cell"] = p.get("cell", "") + "@" + path
+                    progs.append(q)
+            npath += 1
+    I = lambda n: {"k": "int", "n": n}
+    Sv = lambda t: {"k": "string", "b": [ord(c) for c in t]}
+    A = lambda *e: {"k": "array", "imm": False, "e": list(e)}
+    repairable = [
+        ("r := 10 / d", "d", I(0), I(2)), ("r := 10 % d", "d", I(0), I(3)), ("r := d + 1", "d", Sv("x") and A(), I(1)), ("r := d.a.b.c()", "d", I(1), {"k": "map", "imm": False, "kv": [[[97], {"k": "map", "imm": False, "kv": [[[98], {"k": "map", "imm": False, "kv": [[[99], {"k": "hostfn", "name": "hostid"}]]}]]}]]}),
+        ("f := func(n) { if n <= 0 { return 0 }; return 1 + f(n - 1) }\nr := f(d)", "d", I(5000), I(10)),
+        ("r := d[0][0]\nd[5] = 1", "d", A(A(I(1))), A(A(I(1)), I(2), I(3), I(4), I(5), I(6))),
+        ("a := [1, 2, 3]\nr := a[d:]", "d", Sv("x"), I(1)), ("r := bytes(d)", "d", I(-1), I(3)),
+        ("for x in d { r := x }\nr2 := 1", "d", I(7), A(I(1))), ("r := boom(d)", "d", I(1), I(2)),
+    ]
+    for (src, name, badv, goodv) in repairable:
+        inputs = [[name, badv]]
+        repair = [[name, goodv]]
+        if "boom" in src:
+            inputs.append(["boom", {"k": "hostfn", "name": "hostpanic"}])
+            repair = [["boom", {"k": "hostfn", "name": "hostid"}]]
+        progs.append({"id": len(progs) + 1, "src": src + "\n", "inputs": inputs, "mods": [], "raw": True, "cell": "repair:" + src.split("\n")[0][:30], "repair": repair})
+    cases = [{"id": p["id"], "src": p["src"], "inputs": p.get("inputs", []), "mods": p.get("mods", []), "timeout_ms": 3000,
+              "path": p.get("path", ""), "repair": p.get("repair", [])} for p in progs]
     res = vlib.run_cases(ck, "hostile", cases, nproc=10, timeout=1800)
     modelled = [p for p in progs if not p.get("raw")]
     outs = semlib.tlc_outcomes(ck, modelled, njobs=12)
@@ -55,8 +86,16 @@ def run(ck):
             continue
         if o.get("error"):
             raise vlib.Infra("hostile driver: %s" % o["error"])
+        if p.get("repair"):
+            first, again = o.get("outcome") or {}, o.get("repaired_outcome") or {}
+            if first.get("k") != "runtime_error":
+                raise vlib.Infra("repair cell %s does not fail in the first place: %s" % (cell, first))
+            if again.get("k") != "ok":
+                ck.violation("unusable-after-failure:" + cell.split(":")[1][:20], "after a failed run (%s) and a Set of a good input the same object still fails: %s\n%s" % (
+                    first.get("kind"), str(again.get("msg") or again)[:200], p["src"]), rep)
+                continue
         bad = []
-        for step in ("compile", "run", "getall", "set", "set_unknown", "rerun", "clone", "clone_run", "encode_globals"):
+        for step in ("compile", "run", "getall", "set", "set_unknown", "rerun", "clone", "clone_run", "encode_globals", "repair_set", "repaired_run"):
             v = o.get(step)
             if isinstance(v, str) and v.startswith("panic:"):
                 bad.append((step, v))
